@@ -4,6 +4,7 @@ import (
 	"bytes"
 	"context"
 	"fmt"
+	"strings"
 	"testing"
 
 	"pgregory.net/rapid"
@@ -12,6 +13,7 @@ import (
 	"vh/opgen"
 	"vh/oracle"
 	"vh/refexec"
+	"vh/strictjson"
 	"vh/univ"
 	"vh/vfrun"
 )
@@ -72,6 +74,16 @@ func classify(c Case, ref *refexec.Result) {
 	}
 	if ref.SkipIncludeVar > 0 {
 		vfrun.Label("skip-include-by-variable")
+	}
+	for _, k := range ref.Dirs {
+		if strings.HasPrefix(k, "@") {
+			vfrun.Label("operation-directive")
+			if ref.Data != nil && ref.Data.Kind == strictjson.Null && len(ref.Resolvers) == 0 {
+				vfrun.Label("operation-directive-refused")
+			}
+		} else if strings.Contains(k, "@Fx:") {
+			vfrun.Label("field-directive-in-operation")
+		}
 	}
 	if ref.DirBlocked > 0 {
 		vfrun.Label("directive-blocked")
